@@ -73,7 +73,20 @@ def _args_isa(inputs, o):
     return ["dec", K, bs, "".join("%02x" % (x & 0xFF) for x in b)]
 
 
+def _args_loader(inputs, o, work=None):
+    n = _num(inputs.get("in_size"))
+    b = flat_array(inputs, "in_data.b")
+    if not b and isinstance(inputs.get("in_data"), dict):
+        b = [_num(x) for x in inputs["in_data"].get("b") or []]
+    b = (b + [0] * n)[:n]
+    path = os.path.join(work or "/tmp", "cex.nvm")
+    open(path, "wb").write(bytes(x & 0xFF for x in b))
+    return [path, "--fix-crc"]
+
+
 REPLAYERS = {
+    "loader": {"args": _args_loader, "src": ["src/nanoisa/nvm_format.c", "src/nanoisa/verifier.c", "src/nanoisa/isa.c"], "timeout": 20,
+               "keep": ["cex.nvm"]},
     "isa": {"args": _args_isa, "src": []},
 }
 
@@ -83,15 +96,23 @@ def replay(name, inputs, repo, work, o):
     exe, err = _build(name, repo, work, rp.get("src", ()), rp.get("flags", ()))
     if not exe:
         return {"reproduced": False, "error": "replayer build failed: " + err}
-    args = rp["args"](inputs, o)
+    try:
+        args = rp["args"](inputs, o, work)
+    except TypeError:
+        args = rp["args"](inputs, o)
     env = dict(os.environ, ASAN_OPTIONS="detect_leaks=0:abort_on_error=0", UBSAN_OPTIONS="print_stacktrace=1")
     try:
-        p = subprocess.run([exe] + args, stdout=subprocess.PIPE, stderr=subprocess.STDOUT, text=True, timeout=60, env=env,
+        p = subprocess.run([exe] + args, stdout=subprocess.PIPE, stderr=subprocess.STDOUT, text=True, timeout=rp.get("timeout", 60), env=env,
                            errors="replace")
         rc, out = p.returncode, p.stdout
     except subprocess.TimeoutExpired as e:
-        rc, out = -9, "TIMEOUT (60 s): " + str(e.stdout or "")[-500:]
-    return {"replayer": "replay/replay_%s.c" % name, "args": args, "rc": rc, "output": out[-3000:],
+        rc, out = -9, "TIMEOUT (did not terminate within %s s): " % rp.get("timeout", 60) + str(e.stdout or "")[-500:]
+    res_files = {}
+    for k in rp.get("keep", ()):
+        fp = os.path.join(work, k)
+        if os.path.exists(fp):
+            res_files[k] = open(fp, "rb").read().hex()
+    return {"files_hex": res_files, "replayer": "replay/replay_%s.c" % name, "args": args, "rc": rc, "output": out[-3000:],
             "reproduced": rc != 0}
 
 
